@@ -13,7 +13,7 @@ from ..propkit import pool_map
 
 def gen_bodies(depth, rnd):
     """(template_lines, python_lines) pairs; python appends to list `out`"""
-    kinds = ["text", "expr", "if", "for", "while", "try", "block", "empty-if", "comment-if", "for-else", "try-2-except", "if-elif-elif", "with"]
+    kinds = ["text", "expr", "if", "for", "while", "try", "block", "empty-if", "comment-if", "for-else", "try-2-except", "if-elif-elif", "with", "continued-lines"]
     k = rnd.choice(kinds if depth > 0 else ["text", "expr", "block"])
     n = rnd.randrange(1000)
     if k == "text":
@@ -68,6 +68,11 @@ def gen_bodies(depth, rnd):
         t3, p3 = gen_bodies(depth - 1, rnd)
         return [pad + "% if x > 50:"] + inner_t + [pad + "% elif x > 2:"] + t2 + [pad + "% elif x >= 0:"] + t3 + [pad + "% endif"], \
                ["if x > 50:"] + ind(inner_p) + ["elif x > 2:"] + ind(p2) + ["elif x >= 0:"] + ind(p3)
+    if k == "continued-lines":
+        # control lines continued with a backslash, primary and ternary alike
+        t2, p2 = gen_bodies(depth - 1, rnd)
+        return [pad + "% if x > 50 and \\", pad + "      x > 60:"] + inner_t + [pad + "% elif x >= 0 and \\", pad + "      True:"] + t2 + [pad + "% endif"], \
+               ["if x > 50 and x > 60:"] + ind(inner_p) + ["elif x >= 0 and True:"] + ind(p2)
     if k == "with":
         return [pad + "%% with cm(x) as w%d:" % n, "${w%d}" % n] + inner_t + [pad + "% endwith"], \
                ["with cm(x) as w%d:" % n, "    out.append(str(w%d) + '\\n')" % n] + ind(inner_p)
